@@ -99,7 +99,18 @@ func VerifC12Watch() {
 	getChanged := false
 	prefChanged := false
 	insChanged := make([]bool, len(insW))
+	// TXNGET=1: a channel taken with txn.Get(tk) inside the transaction, after its first
+	// operation (Get is documented to return a channel "closed on modification to the key")
+	var tgW <-chan struct{}
+	var tk []byte
+	tgChanged := false
 	for i := 0; i < N2; i++ {
+		if i == 1 && vnd.Param("TXNGET", 0) == 1 {
+			tk = symKey("tk", L)
+			_, tgW, _ = txn.Get(tk)
+			vnd.Assert(vnd.Not(vnd.IsClosed(tgW)), "C12.txnget.open-when-handed-out")
+			vnd.Cover("C12.txnget")
+		}
 		// KL1: length bound of the first operation's key (merges on delete need a short key first)
 		kl := L
 		if i == 0 {
@@ -131,6 +142,9 @@ func VerifC12Watch() {
 			}
 		}
 		anyChange = vnd.Or(anyChange, changed)
+		if tgW != nil {
+			tgChanged = vnd.Or(tgChanged, vnd.And(changed, bytes.Equal(k, tk)))
+		}
 		getChanged = vnd.Or(getChanged, vnd.And(changed, bytes.Equal(k, gk)))
 		prefChanged = vnd.Or(prefChanged, vnd.And(changed, bytes.HasPrefix(k, pp)))
 		for j := range insW {
@@ -138,6 +152,9 @@ func VerifC12Watch() {
 		}
 	}
 	// nothing is closed before Notify
+	if tgW != nil {
+		vnd.Assert(vnd.Not(vnd.IsClosed(tgW)), "C12.txnget.open-before-notify")
+	}
 	vnd.Assert(vnd.Not(vnd.IsClosed(getW)), "C12.get.open-before-notify")
 	vnd.Assert(vnd.Not(vnd.IsClosed(prefW)), "C12.prefix.open-before-notify")
 	vnd.Assert(vnd.Not(vnd.IsClosed(rootW)), "C12.root.open-before-notify")
@@ -156,6 +173,9 @@ func VerifC12Watch() {
 		vnd.Assert(vnd.Iff(vnd.IsClosed(rootW), anyChange), "C12.root.closed-iff-changed")
 		vnd.Assert(vnd.Implies(getChanged, vnd.IsClosed(getW)), "C12.get.closed-on-change")
 		vnd.Assert(vnd.Implies(prefChanged, vnd.IsClosed(prefW)), "C12.prefix.closed-on-change")
+		if tgW != nil {
+			vnd.Assert(vnd.Implies(tgChanged, vnd.IsClosed(tgW)), "C12.txnget.closed-on-change")
+		}
 		for j, w := range insW {
 			last := true
 			for j2 := j + 1; j2 < len(insW); j2++ {
